@@ -1082,6 +1082,20 @@ impl LuaGenerator for ReadableLuaGenerator {
         if let Some(method) = &call.get_method() {
             self.push_char(':');
             self.push_str(method.get_name());
+
+            if call.has_method_type_instantiation() {
+                self.push_str("<<");
+
+                let mut types = call.get_method_type_instantiation().peekable();
+                while let Some(r#type) = types.next() {
+                    self.write_type(r#type);
+                    if types.peek().is_some() {
+                        self.push_char(',');
+                    }
+                }
+
+                self.push_str(">>");
+            }
         }
 
         self.write_arguments(call.get_arguments());
